@@ -160,11 +160,25 @@ func (m *MonC15) OnStepEnd(w *World, step int) {
 				continue
 			}
 			name := w.qevSubjects[e.Subject]
-			lockT := -1
+			// the start of the lock: of the first of a run of query events that took
+			// the lock one after the other (a query event queued during a lock takes
+			// it again in the step that releases it; what was queued keeps waiting)
+			lockT, out, zeroStep := -1, 0, -2
 			for _, p := range log[:start] {
-				if p.Kind == "mq_req" && p.Subject == e.Subject {
-					lockT = p.T
-					break
+				if !strings.HasPrefix(p.Subject, "_EVQ.") || w.qevSubjects[p.Subject] != name {
+					continue
+				}
+				switch p.Kind {
+				case "mq_req":
+					if out == 0 && p.Step != zeroStep {
+						lockT = p.T
+					}
+					out++
+				case "mq_complete":
+					out--
+					if out == 0 {
+						zeroStep = p.Step
+					}
 				}
 			}
 			for _, p := range log[:start] {
